@@ -83,6 +83,7 @@ pub fn fq12_alpha(tier: Tier, seed: u64) -> Vec<F12> {
         gi += 1;
         gens[gi % gens.len()].clone()
     };
+    let gen12 = |g: &mut dyn FnMut() -> N| F12::from_coeffs(&(0..12).map(|_| g()).collect::<Vec<_>>());
     for k in 0..12 {
         v.push(F12::monomial(k, &N::one()));
         v.push(F12::monomial(k, &(p - n(1))));
@@ -101,7 +102,6 @@ pub fn fq12_alpha(tier: Tier, seed: u64) -> Vec<F12> {
     for e in extreme_values() {
         v.push(F12::from_coeffs(&vec![e; 12]));
     }
-    let gen12 = |g: &mut dyn FnMut() -> N| F12::from_coeffs(&(0..12).map(|_| g()).collect::<Vec<_>>());
     let x = gen12(&mut g);
     let unitary = x.frobenius(6).mul(&x.inv().unwrap());
     let cyclo = unitary.frobenius(2).mul(&unitary);
@@ -113,8 +113,9 @@ pub fn fq12_alpha(tier: Tier, seed: u64) -> Vec<F12> {
     for _ in 0..tier.pick(4, 24) {
         v.push(gen12(&mut g));
     }
-    if tier == Tier::Thorough {
-        // sparse shapes: every pair of monomials with extreme coefficients
+    {
+        // sparse shapes: every pair of monomials (extreme coefficients), and the same shape with two EQUAL generic
+        // coefficients (thorough) - zero coefficients and coinciding coefficients are where shortcuts hide
         let ex = extreme_values();
         for i in 0..12 {
             for j in (i + 1)..12 {
@@ -122,8 +123,23 @@ pub fn fq12_alpha(tier: Tier, seed: u64) -> Vec<F12> {
                 f.0[i] = ex[(i + j) % ex.len()].clone();
                 f.0[j] = ex[(i * j + 1) % ex.len()].clone();
                 v.push(f);
+                if tier == Tier::Thorough || (i + j) % 3 == 0 {
+                    let mut f = F12::zero();
+                    let c = g();
+                    f.0[i] = c.clone();
+                    f.0[j] = c;
+                    v.push(f);
+                }
             }
         }
+        // dense elements with one zero coefficient, and with all coefficients equal to one generic value
+        for i in 0..12 {
+            let mut f = gen12(&mut g);
+            f.0[i] = N::zero();
+            v.push(f);
+        }
+        let c = g();
+        v.push(F12::from_coeffs(&vec![c; 12]));
     }
     let mut seen = std::collections::HashSet::new();
     v.retain(|f| seen.insert(f.clone()));
